@@ -648,6 +648,9 @@ class UniformTime(np.ndarray, TimeInterface):
                 sampling_interval = sampling_rate.to_period() / float(c_f)
             elif sampling_rate is None:
                 sampling_interval = float(duration) / length
+                if isinstance(duration, TimeInterface):
+                    # a time object counts in the base unit, not in time_unit
+                    sampling_interval /= time_unit_conversion[time_unit]
                 sampling_rate = Frequency(1.0 / sampling_interval,
                                           time_unit=time_unit)
             else:
@@ -1267,6 +1270,9 @@ class TimeSeries(TimeSeriesBase):
             elif sampling_rate is None:
                 data_len = np.asarray(data).shape[-1]
                 sampling_interval = float(duration) / data_len
+                if isinstance(duration, TimeInterface):
+                    # a time object counts in the base unit, not in time_unit
+                    sampling_interval /= time_unit_conversion[time_unit]
                 sampling_rate = Frequency(1.0 / sampling_interval,
                                              time_unit=time_unit)
             else:
